@@ -38,6 +38,20 @@ Theorem C11_subscriptions_do_not_influence_requests : forall ma1 ma2 h sb st,
   somes (map fst (prun2 ma1 ma2 sb st h)) = map snd (requests ma1 ma2 st (strip h)).
 Proof. intros. apply prun2_requests. Qed.
 
+(* What the actors are told is what is in force: after EVERY history the last request sent equals
+   the sum of the two stored targets (the ones every report carries, C11_reports_current), unless no
+   target exists yet.  In particular a target can never be reported without a request carrying
+   it having been sent. *)
+Theorem C11_reported_targets_are_in_force : forall ma_reg ma_op h,
+  let '(st', last) := run_last ma_reg ma_op pm_init None h in
+  told st' = None \/ told st' = last.
+Proof. intros. apply told_in_force. left. reflexivity. Qed.
+
+Theorem C11_step_sends_what_is_told : forall ma1 ma2 st e,
+  let '(st', r, _) := pstep ma1 ma2 st e in
+  match r with Some x => told st' = Some x | None => told st' = told st end.
+Proof. exact pstep_told. Qed.
+
 (* SEVERAL component groups served by one actor (model/PowerManagerN.v: per-group state, the
    shared partial-failure flag, the timer sweeping every bucket).  For every history over any
    number of groups: every request sent for group k equals the sum of group k's two stored
@@ -62,6 +76,10 @@ Theorem C11_tick_keeps_targets : forall ma1 ma2 st now j g,
              g_target (pm_reg g') = g_target (pm_reg g) /\ g_target (pm_op g') = g_target (pm_op g) /\
              pm_sys g' = pm_sys g.
 Proof. exact ntick_keeps_targets. Qed.
+
+(* stop() followed by start() of the manager keeps every group's proposals, stored targets and cached bounds *)
+Theorem C11_restart_keeps_groups : forall ma1 ma2 st, n_groups (fst (nstep ma1 ma2 st NRestart)) = n_groups st.
+Proof. exact nrestart_keeps_groups. Qed.
 
 Example C11_multi_group_nonvacuous :
   let h := [NE 0 (PBounds (mkS (Some (-100, 100)) None)); NE 1 (PBounds (mkS (Some (-50, 50)) None));
@@ -103,7 +121,10 @@ Print Assumptions C11_step.
 Print Assumptions C11_reports_current.
 Print Assumptions C11_tick_coalescing_sound.
 Print Assumptions C11_subscriptions_do_not_influence_requests.
+Print Assumptions C11_reported_targets_are_in_force.
+Print Assumptions C11_step_sends_what_is_told.
 Print Assumptions C11_multi_group_sum_and_bounds.
 Print Assumptions C11_groups_independent.
 Print Assumptions C11_tick_keeps_targets.
+Print Assumptions C11_restart_keeps_groups.
 Print Assumptions C11_F7_before_fix_refuted.
